@@ -7,7 +7,7 @@ import torch
 
 from vlib import policies
 from vlib.c14impl import pinned_matnet_randomness
-from vlib.taps import PolicyTap
+from vlib.taps import PolicyTap, logit_noise
 
 
 def ref_logp(logits, mask, s):
@@ -62,6 +62,7 @@ def case(ctx, case):
         if s is None or not rec.steps:
             ctx.count("c11_tap_missed")
             return
+        noise = logit_noise(rec)  # conditioning-aware slack for comparisons ACROSS forwards (batch layouts differ)
         off = 1 if (multistart and s.num_starts and s.num_starts >= 1) else 0
         if len(rec.steps) != T - off:
             ctx.evaluation()
@@ -131,7 +132,7 @@ def case(ctx, case):
                 return
             ctx.count("c11_roundtrips_replicated", R)
             d = (ev["log_likelihood"][:, off:].double() - ll_steps[:, off:].double()).abs()
-            if bool((d > 1e-4).any()):
+            if bool((d > 1e-4 + noise).any()):
                 r = int(d.max(1).values.argmax())
                 ctx.violation(dict(sig, q="roundtrip_logprob", replicated=True), f"row {r} (instance {r % B}): per-step log-probs of a replicated rollout differ by up to {float(d.max()):.4g} from those the policy assigns when the same actions are evaluated on that instance",
                               dict(B=B, n=n, decode=case["decode"]))
@@ -149,7 +150,7 @@ def case(ctx, case):
                 return
             ctx.count("c11_roundtrips", R)
             d = (ev["log_likelihood"].double() - ll_steps.double()).abs()
-            if ev["log_likelihood"].shape != ll_steps.shape or bool((d > 1e-4).any()):
+            if ev["log_likelihood"].shape != ll_steps.shape or bool((d > 1e-4 + noise).any()):
                 ctx.violation(dict(sig, q="roundtrip_logprob"), f"evaluate(actions) per-step log-probs differ from the rollout's by up to {float(d.max()) if d.numel() else 'shape'}", dict(B=B, n=n, decode=case["decode"]))
                 return
             if bool(((ev["reward"] - reward).abs() > 1e-5 * reward.abs().clamp(min=1.0)).any()):
